@@ -14,6 +14,162 @@ import (
 // cancels the next request (failing write): the cancellation can overtake the response and both are delivered to
 // each other's callbacks. Repeated until it shows (it is a race; typically a few per thousand).
 func init() {
+	// c01_outcome_order (S4): charge point / charging station. The application's callback of q1 is slow, so the goroutine that
+	// hands outcomes to callbacks is busy while q2's response and then q3's write failure are reported: both are waiting
+	// when it returns and must be handed over in the order they were reported (q2's callback gets the response).
+	monitors["c01_outcome_order"] = func(seed int64, tier string) interface{} {
+		rep := &Report{Monitor: "c01_outcome_order", Rule: "per iteration: charge point / charging station, four async DataTransfer requests; q1 is answered and its callback sleeps 30 ms; meanwhile writes start failing and q2 is answered (response reported, then the write failures of q3 and q4); callbacks tagged with their request id; a delivery to another request's callback is a violation; distinct = iterations in which all four callbacks fired"}
+		n := 24
+		if tier == "thorough" {
+			n = 120
+		}
+		for it := 0; it < n; it++ {
+			ver := []string{"R16", "R201"}[it%2]
+			e := newEndpoint(ver, "cp", epOpts{timeout: 2 * time.Second})
+			var mu sync.Mutex
+			var log []string
+			var wg sync.WaitGroup
+			next := ""
+			ocppj.SetMessageIdGenerator(func() string { return next })
+			for i := 1; i <= 4; i++ {
+				id := fmt.Sprintf("q%d", i)
+				next = id
+				wg.Add(1)
+				err := e.sendAsync("A", dataTransferReq(ver), func(r ocpp.Response, err error) {
+					defer wg.Done()
+					got := "resp"
+					if err != nil {
+						got = "err"
+						if oe, ok := err.(*ocpp.Error); ok {
+							got = "err:" + oe.MessageId
+						}
+					}
+					mu.Lock()
+					log = append(log, id+"<-"+got)
+					mu.Unlock()
+					if id == "q1" {
+						time.Sleep(30 * time.Millisecond)
+					}
+				})
+				if err != nil {
+					wg.Done()
+				}
+			}
+			e.waitWrites(1, 200*time.Millisecond)
+			_ = e.deliver("A", []byte(`[3,"q1",{"status":"Accepted"}]`))
+			e.waitWrites(1, 200*time.Millisecond) // q2 written
+			e.fc.setWriteErr(fmt.Errorf("injected"))
+			_ = e.deliver("A", []byte(`[3,"q2",{"status":"Accepted"}]`))
+			done := make(chan struct{})
+			go func() { wg.Wait(); close(done) }()
+			select {
+			case <-done:
+				rep.Distinct++
+			case <-time.After(800 * time.Millisecond):
+			}
+			rep.Evaluations++
+			mu.Lock()
+			want := map[string]string{"q1": "resp", "q2": "resp", "q3": "err:q3", "q4": "err:q4"}
+			for _, l := range log {
+				p := strings.Split(l, "<-")
+				if want[p[0]] != p[1] {
+					sig := "outcome-order:client"
+					dup := false
+					for _, v := range rep.Violations {
+						dup = dup || v.Sig == sig
+					}
+					if !dup {
+						rep.Violations = append(rep.Violations, Violation{Property: "C01", Sig: sig, What: fmt.Sprintf("%s charge point: deliveries %v: an outcome was delivered to the callback of another request (q2's response and q3's write failure were both waiting while q1's callback ran, and were handed over in the wrong order)", ver, log), Replay: map[string]interface{}{"version": ver, "iteration": it, "deliveries": log}})
+					}
+				}
+			}
+			mu.Unlock()
+			func() {
+				defer func() { _ = recover() }()
+				e.stop()
+			}()
+		}
+		return rep
+	}
+	// c01_handler_order (S5): the ocppj reader is slow between completing a request and invoking its response handler
+	// (injected dispatcher whose CompleteRequest returns 20 ms late); the pump dispatches the next requests meanwhile, their
+	// writes fail and are reported: every callback must still receive its own request's outcome. All four endpoint kinds.
+	monitors["c01_handler_order"] = func(seed int64, tier string) interface{} {
+		rep := &Report{Monitor: "c01_handler_order", Rule: "per iteration: three async DataTransfer requests (one written, two queued), writes start failing, the reply to the first arrives and the reader is held 20 ms between CompleteRequest and the response handler (injected dispatcher wrapper); callbacks tagged with their request id; a delivery to another request's callback is a violation; all four endpoint kinds; distinct = iterations in which all three callbacks fired"}
+		n := 16
+		if tier == "thorough" {
+			n = 80
+		}
+		for it := 0; it < n; it++ {
+			ver := []string{"R16", "R201"}[it%2]
+			role := []string{"cp", "cs"}[(it/2)%2]
+			e := newEndpoint(ver, role, epOpts{timeout: 2 * time.Second, slowComplete: 20 * time.Millisecond})
+			if role == "cs" {
+				e.fs.connect("A")
+			}
+			var mu sync.Mutex
+			var log []string
+			var wg sync.WaitGroup
+			next := ""
+			ocppj.SetMessageIdGenerator(func() string { return next })
+			for i := 1; i <= 3; i++ {
+				id := fmt.Sprintf("q%d", i)
+				next = id
+				wg.Add(1)
+				err := e.sendAsync("A", dataTransferReq(ver), func(r ocpp.Response, err error) {
+					defer wg.Done()
+					got := "resp:q1"
+					if err != nil {
+						got = "err"
+						if oe, ok := err.(*ocpp.Error); ok {
+							got = "err:" + oe.MessageId
+						}
+					}
+					mu.Lock()
+					log = append(log, id+"<-"+got)
+					mu.Unlock()
+				})
+				if err != nil {
+					wg.Done()
+				}
+			}
+			e.waitWrites(1, 200*time.Millisecond)
+			if role == "cs" {
+				e.fs.setWriteErr("A", fmt.Errorf("injected"))
+			} else {
+				e.fc.setWriteErr(fmt.Errorf("injected"))
+			}
+			_ = e.deliver("A", []byte(`[3,"q1",{"status":"Accepted"}]`))
+			done := make(chan struct{})
+			go func() { wg.Wait(); close(done) }()
+			select {
+			case <-done:
+				rep.Distinct++
+			case <-time.After(800 * time.Millisecond):
+			}
+			rep.Evaluations++
+			mu.Lock()
+			for _, l := range log {
+				p := strings.Split(l, "<-")
+				if !strings.HasSuffix(p[1], ":"+p[0]) {
+					sig := "handler-order:" + map[string]string{"cp": "client", "cs": "server"}[role]
+					dup := false
+					for _, v := range rep.Violations {
+						dup = dup || v.Sig == sig
+					}
+					if !dup {
+						rep.Violations = append(rep.Violations, Violation{Property: "C01", Sig: sig, What: fmt.Sprintf("%s %s: deliveries %v: a conclusion was delivered to the callback of another request (the reader was held between CompleteRequest and the response handler; the failing write of the next request was reported first)", ver, role, log), Replay: map[string]interface{}{"version": ver, "role": role, "iteration": it, "deliveries": log}})
+					}
+				}
+			}
+			mu.Unlock()
+			func() {
+				defer func() { _ = recover() }()
+				e.stop()
+			}()
+		}
+		return rep
+	}
 	monitors["c01_overtake"] = func(seed int64, tier string) interface{} {
 		rep := &Report{Monitor: "c01_overtake", Rule: "per iteration: three async DataTransfer requests (one written, two queued), writes start failing, the reply to the first arrives; callbacks tagged with their request id; a delivery to another request's callback is a violation; all four endpoint kinds; distinct = iterations in which all three callbacks fired"}
 		n := 400
